@@ -281,6 +281,8 @@ class EBB3:
             parsed_version_string = parse(version_string)
         except InvalidVersion:
             return None
+        if self.version_parsed is None:
+            return None # Firmware version is not known; unable to determine.
         if self.version_parsed >= parsed_version_string:
             return True
         return False
